@@ -849,8 +849,8 @@ def run_check(tier, base_seed, wall, workers, do_selftest):
                         'reference = the same calls executed sequentially in a pristine forked interpreter'],
         'wall_s': round(wall_used, 1), 'violations': new,
     }
-    os.makedirs(os.path.join(VERIF, 'evidence'), exist_ok=True)
-    with open(os.path.join(VERIF, 'evidence', 'C18.json'), 'w') as f:
+    from .runner import evidence_path
+    with open(evidence_path('C18'), 'w') as f:
         json.dump(ev, f, indent=1, default=str)
     print('runs=%d distinct_nontrivial=%d traced_steps=%d switches=%d (both inside parso: %d) wall=%.1fs (%.0f runs/h)'
           % (agg['runs'], len(agg['digests']), agg['steps'], agg['switches'], agg['nontrivial_switches'], wall_used,
